@@ -617,7 +617,9 @@ fn run(a: &Args) {
         let mut worst_ms = 0u64;
         let mut worst_kb = 0u64;
         let mut panics = serde_json::Map::new();
-        for (pname, opts) in presets() {
+        for (pi, (pname, opts)) in presets().into_iter().enumerate() {
+            // progress per preset: the driver's stall timer must see a slow case move
+            std::fs::write(&progress, format!("{ci}:{pi}\n")).ok();
             let (b2, nums) = (bytes.clone(), numbers.clone());
             // the navigation runs on a thread with the 8 MB stack of a main thread
             let h = std::thread::Builder::new().stack_size(8 << 20).spawn(move || {
